@@ -766,6 +766,18 @@ func (e *Env) callExpr(x *ECall) tv {
 			return tv{u.convert(e.st, t, r.t0(), bt).(*Term), bt}
 			_ = want
 		}
+	case "str":
+		// str(b): the string conversion of a byte slice (same function the code's string(b) denotes)
+		r := e.eval(x.Args[0])
+		b, ok := r.v.(*Term)
+		if !ok || b.Sort != SSlice {
+			e.fail("str(): byte slice expected")
+		}
+		ts := SStr
+		if u.smtStrings {
+			ts = SString
+		}
+		return tv{u.strOfBytes(e.st, b, ts), types.Typ[types.String]}
 	case "constmap":
 		// constmap("KeySort", v): the ghost array mapping every key to v
 		ks, ok := x.Args[0].(*EStr)
@@ -1028,6 +1040,8 @@ func (u *Unit) resolveType(s string, pkgPath string) (types.Type, Sort) {
 		return nil, SSlice
 	case "Iface":
 		return nil, SIface
+	case "Fn":
+		return nil, SFn
 	case "BV64":
 		return nil, SBV64
 	case "BV32":
